@@ -250,6 +250,51 @@ def rule_D10(body):
     return body, applied
 
 
+def rule_D12(body):
+    """D12: `RECV.iter().fold(INIT, |acc, x| BODY)` is written as
+    `{ let mut acc = INIT; for x in RECV.iter() { acc = BODY; } acc }` — the definition of Iterator::fold (std: `let mut accum = init;
+    while let Some(x) = self.next() { accum = f(accum, x); } accum`).  RECV must be a plain field path, BODY (block or
+    expression) must not contain `return`, `break`, `continue` or `?`; every occurrence, at least one."""
+    applied = []
+    while True:
+        m = mask(body)
+        mm = re.search(r"([A-Za-z_][A-Za-z0-9_]*(?:\s*\.\s*[A-Za-z_0-9]+)*)\s*\.iter\(\)\s*\.fold\(", m)
+        if not mm:
+            break
+        call_open = mm.end() - 1
+        call_close = match_close(m, call_open) - 1            # index of the matching `)`
+        inner_m, inner = m[call_open + 1:call_close], body[call_open + 1:call_close]
+        # split `INIT, |acc, x| BODY` at the first top-level comma
+        d, cut = 0, None
+        for i, ch in enumerate(inner_m):
+            if ch in "([{":
+                d += 1
+            elif ch in ")]}":
+                d -= 1
+            elif ch == "," and d == 0:
+                cut = i
+                break
+        if cut is None:
+            raise LostAnchor("rule D12: fold without initial value")
+        init = inner[:cut].strip()
+        cm = re.match(r"\s*\|\s*([A-Za-z_][A-Za-z0-9_]*)\s*,\s*([A-Za-z_][A-Za-z0-9_]*)\s*\|\s*", inner_m[cut + 1:])
+        if not cm:
+            raise LostAnchor("rule D12: fold closure is not `|acc, x| ..`")
+        acc, var = cm.group(1), cm.group(2)
+        cbody = inner[cut + 1 + cm.end():].strip()
+        if cbody.endswith(","):
+            cbody = cbody[:-1].rstrip()
+        if re.search(r"\breturn\b|\bbreak\b|\bcontinue\b|\?", mask(cbody)):
+            raise LostAnchor("rule D12: fold closure contains return/break/continue/?")
+        recv = mm.group(1)
+        new = f"{{ let mut {acc} = {init}; for {var} in {recv}.iter() {{ {acc} = {cbody}; }} {acc} }}"
+        applied.append(("D12", re.sub(r"\s+", " ", body[mm.start():call_close + 1])[:160], re.sub(r"\s+", " ", new)[:200]))
+        body = body[:mm.start()] + new + body[call_close + 1:]
+    if not applied:
+        raise LostAnchor("rule D12: no `.iter().fold(init, |acc, x| ..)` found")
+    return body, applied
+
+
 def rule_D5b(body):
     """D5 (closure body): `.map(|x| EXPR)` with EXPR not a block is written `.map(|x| { EXPR })`, so that a ghost
     signature can be attached to the closure; same value.  Every occurrence, at least one."""
@@ -317,7 +362,7 @@ def rule_D4t(body):
     return pat.sub("range_from_element(", body), [("D4", "<Option<&SubtypeElements> as TryInto<PerVisibleRangeConstraints>>::try_into(", "range_from_element(")] * n
 
 
-RULES = {"D2": rule_D2, "D5": rule_D5, "D5c": rule_D5c, "D5m": rule_D5m, "D9": rule_D9, "D4t": rule_D4t, "D10": rule_D10, "D5b": rule_D5b}
+RULES = {"D2": rule_D2, "D5": rule_D5, "D5c": rule_D5c, "D5m": rule_D5m, "D9": rule_D9, "D4t": rule_D4t, "D10": rule_D10, "D5b": rule_D5b, "D12": rule_D12}
 
 
 class FnUnit:
